@@ -373,6 +373,15 @@ def rand_spline_kw(rng, invalid=0.08, feats=(0, 1), cat_feats=(2,), by_feats=(3,
         if rng.random() < invalid:
             cons[0] = 'bar'
         kw['constraints'] = cons if (ncon > 1 or rng.random() < 0.5) else cons[0]
+    if rng.random() < 0.06:
+        # empty lists are valid: a term without penalty / without constraint slots (arity 0)
+        if rng.random() < 0.6:
+            kw['penalties'] = []
+            kw.pop('lam', None)
+            if rng.random() < 0.3:
+                kw['lam'] = []
+        else:
+            kw['constraints'] = []
     if rng.random() < p / 2:
         kw['dtype'] = rng.choice(['numerical', 'numerical', 'categorical'] + (['foo'] if rng.random() < invalid else []))
     if rng.random() < p / 2:
@@ -488,15 +497,24 @@ def rand_te(h, rng, invalid=0.08, regs=None):
     return h.te(args, by=by, verbose=verbose, kw=kw)
 
 
+def small_te(h, rng):
+    """a small tensor term for histories in which the model is fitted: two marginals, few splines"""
+    if rng.random() < 0.5:
+        return h.te([('f', 0), ('f', 1)], by=rng.choice([None, 3]), kw={'n_splines': rng.choice([4, [4, 5]])})
+    m1 = h.atom('S', {'feature': 0, 'n_splines': 5})
+    m2 = h.atom(rng.choice('SL'), {'feature': 1})
+    return None if (m1 is None or m2 is None) else h.te([('r', m1), ('r', m2)])
+
+
 def value_for(rng, name, size, invalid=0.1, small=False):
     """a value to assign to the plural attribute `name` of an object whose flattened size is `size`"""
     def one(bad=False):
         if name == 'lam':
             return rand_lam(rng, 1.0 if bad else 0.0)
         if name == 'n_splines':
-            return rng.choice([0, 1, 2, -3]) if bad else rng.choice([5, 6, 8] if small else [5, 6, 8, 11, 20, 25])
+            return rng.choice([0, 1, 2, -3]) if bad else rng.choice([5, 6, 8] if small else [3, 4, 5, 6, 8, 11, 20, 25])
         if name == 'spline_order':
-            return rng.choice([-1, 30]) if bad else rng.choice([0, 1, 2, 3])
+            return rng.choice([-1, 30]) if bad else rng.choice([0, 1, 2, 3] if small else [0, 1, 2, 3, 3, 4, 5, 6])
         if name == 'penalties':
             return rng.choice(['foo', 7]) if bad else rng.choice(PENS)
         if name == 'constraints':
@@ -681,7 +699,7 @@ def gen_plural(rng, n_ops=None, target=None):
     return h
 
 
-UNKNOWN_NAMES = ['foo', 'zzz', '_foo', 'foo_', '_lam', 'lam_', 'n_coefs', 'info', 'Lam', 'coef_']
+UNKNOWN_NAMES = ['foo', 'zzz', '_foo', 'foo_', '_lam', 'lam_', 'istensor', 'info', 'Lam', 'coef_']
 
 
 def gen_params(rng):
@@ -760,13 +778,7 @@ def gen_gam(rng):
         kinds = 'SSSS' + ('LF' if rng.random() < 0.4 else '')
         for _ in range(1 if mode == 'term' else rng.randint(1, 3)):
             if rng.random() < 0.15:
-                # small tensor term (the model is fitted): two marginals, few splines
-                if rng.random() < 0.5:
-                    r = h.te([('f', 0), ('f', 1)], by=rng.choice([None, 3]), kw={'n_splines': rng.choice([4, [4, 5]])})
-                else:
-                    m1 = h.atom('S', {'feature': 0, 'n_splines': 5})
-                    m2 = h.atom(rng.choice('SL'), {'feature': 1})
-                    r = None if (m1 is None or m2 is None) else h.te([('r', m1), ('r', m2)])
+                r = small_te(h, rng)
             else:
                 k = rng.choice(kinds)
                 kw = {'S': lambda: _fit_spline_kw(rng), 'L': lambda: {'feature': rng.choice([0, 1, 3])},
@@ -903,7 +915,17 @@ def gen_malformed(rng):
     """invalid constructor arguments, junk operands, bad info dictionaries: exception classes must agree"""
     h = History()
     u = rng.random()
-    if u < 0.35:
+    if u < 0.12:
+        # boundary of n_splines > spline_order
+        k = rng.choice([0, 1, 2, 3, 4])
+        kw = {'feature': 0, 'spline_order': k, 'n_splines': k + rng.choice([-1, 0, 0, 1])}
+        if rng.random() < 0.3:
+            del kw['spline_order']
+            kw['n_splines'] = rng.choice([2, 3, 4])
+        h.atom('S', kw)
+        if not h.dead:
+            h.info(0)
+    elif u < 0.35:
         rand_atom(h, rng, invalid=0.6, full=True)
     elif u < 0.55:
         rand_te(h, rng, invalid=0.5)
